@@ -377,19 +377,19 @@ func (e *SpecEnv) Eval(x SExpr) SV {
 	return SV{}
 }
 
-// patTerm: the term of a trigger expression; a struct location (s[i] of a struct-element slice, *p) is
-// represented by its reference (an empty :pattern () is rejected by cvc5 and ignored by z3).
-// patOf: the trigger term of a pattern expression. has(m, k) is a conjunction (m != nil && k in dom(m)), which no
-// solver accepts inside a pattern: its trigger is the domain lookup alone.
-func (e *SpecEnv) patOf(p SExpr) string {
-	if c, ok := p.(SCall); ok && c.Fn == "has" && len(c.Args) == 2 {
+// patOf: the pattern term of a trigger expression. has(m, k) evaluates to a conjunction (non-nil map and key in its
+// domain), which cannot be a pattern: its trigger is the domain lookup itself.
+func (e *SpecEnv) patOf(x SExpr) string {
+	if c, ok := x.(SCall); ok && c.Fn == "has" && len(c.Args) == 2 {
 		m, k := e.Eval(c.Args[0]), e.Eval(c.Args[1])
 		dom, _, _, _ := e.G.TE.MapHeaps(m.Typ)
 		return fmt.Sprintf("(select (select %s %s) %s)", e.Cur.Heap(dom), m.Term, k.Term)
 	}
-	return patTerm(e.Eval(p))
+	return patTerm(e.Eval(x))
 }
 
+// patTerm: the term of a trigger expression; a struct location (s[i] of a struct-element slice, *p) is
+// represented by its reference (an empty :pattern () is rejected by cvc5 and ignored by z3).
 func patTerm(v SV) string {
 	if v.Term == "" && v.Loc != nil {
 		return v.Loc.Base
@@ -848,6 +848,27 @@ func (e *SpecEnv) evalCall(x SCall) SV {
 			e.fail("seen() outside a range-over-map loop")
 		}
 		return SV{Term: fmt.Sprintf("(select %s %s)", sv.Term, arg(0).Term), Typ: boolT}
+	case "seenCount":
+		// seenCount(): number of keys the enclosing range-over-map loop has produced so far
+		sv, ok := e.Vars["#seenN"]
+		if !ok {
+			e.fail("seenCount() outside a range-over-map loop")
+		}
+		return SV{Term: sv.Term, Typ: intT}
+	case "seenKey":
+		// seenKey(j): the j-th key produced by the enclosing range-over-map loop (ghost; meaningful for 0 <= j < seenCount())
+		sv, ok := e.Vars["#seenKey"]
+		if !ok {
+			e.fail("seenKey() outside a range-over-map loop")
+		}
+		return SV{Term: fmt.Sprintf("(select %s %s)", sv.Term, arg(0).Term), Typ: sv.Typ}
+	case "seenPos":
+		// seenPos(k): the position at which key k was produced (ghost; meaningful for seen(k))
+		sv, ok := e.Vars["#seenPos"]
+		if !ok {
+			e.fail("seenPos() outside a range-over-map loop")
+		}
+		return SV{Term: fmt.Sprintf("(select %s %s)", sv.Term, arg(0).Term), Typ: intT}
 	case "typeIs":
 		v := arg(0)
 		id, ok := x.Args[1].(SStrLit)
